@@ -49,6 +49,36 @@ Theorem C03_machine_reports_bucket_target : forall ma st e t,
   t = calc_target (m_sys (fst (mstep ma st e))) (m_bucket (fst (mstep ma st e))).
 Proof. exact mstep_output. Qed.
 
+(* lifted to EVERY reachable state of the per-call machine: whatever the history of
+   proposals, expiries and bounds changes, each reported target is inside the envelope of
+   the bounds in force at the moment it is reported *)
+Theorem C03_every_report_in_envelope : forall ma h st n t,
+  wf_sys (m_sys st) -> Forall ev_wf h ->
+  nth_error (mrun ma st h) n = Some (Some t) ->
+  in_envelope (m_sys (mfinal ma st (firstn (S n) h))) t.
+Proof. exact mrun_envelope. Qed.
+
+(* history-freedom of the machine itself (bounds changes included in the histories) *)
+Theorem C03_machine_history_free : forall ma s0 h1 h2,
+  let st := mkM true [] s0 in
+  (forall p, live ma h1 p <-> live ma h2 p) ->
+  m_sys (mfinal ma st h1) = m_sys (mfinal ma st h2) ->
+  calc_target (m_sys (mfinal ma st h1)) (m_bucket (mfinal ma st h1)) =
+  calc_target (m_sys (mfinal ma st h2)) (m_bucket (mfinal ma st h2)).
+Proof. exact machine_history_free. Qed.
+
+(* non-vacuity of the run-level statements: bounds change mid-history, the last report is
+   non-trivial and differs from the one before the change *)
+Example C03_run_nonvacuous :
+  let st := mkM true [] (mkS (Some (-100, 100)) None) in
+  let h := [Propose (mkP 1 0 (Some 80) None None 0); SetBounds (mkS (Some (-50, 50)) (Some (-10, 10)));
+            Propose (mkP 2 1 (Some 7) None None 5)] in
+  wf_sys (m_sys st) /\ Forall ev_wf h /\ mrun 60 st h = [Some 80; None; Some 50].
+Proof.
+  cbn zeta. split; [unfold wf_sys; cbn; lia|]. split; [|vm_compute; reflexivity].
+  repeat constructor; unfold wf_sys; cbn; lia.
+Qed.
+
 (* non-vacuity: a well-formed system, conflicting proposals, a non-trivial target *)
 Example C03_nonvacuous :
   let s := mkS (Some (-100, 100)) (Some (-10, 10)) in
@@ -68,3 +98,5 @@ Print Assumptions C03_history_free.
 Print Assumptions C03_order_free.
 Print Assumptions C03_expiry.
 Print Assumptions C03_machine_reports_bucket_target.
+Print Assumptions C03_every_report_in_envelope.
+Print Assumptions C03_machine_history_free.
